@@ -1,5 +1,7 @@
 """C13 all ways of reading one file agree: partial, converting, scanline, any device."""
 import os
+OWN = {'P_AnyImageAgrees', 'P_ConvertIsColorConvert', 'P_DevicesAgree', 'P_InfoMatches', 'P_NoFault', 'P_ReadViewAgrees', 'P_ScanlineAgrees',
+       'P_SmallDestinationRejected', 'P_SubImageIsCrop', 'P_WritesOnlyDestination', 'UnknownEvent'}      # (X_DecodesAsEncoded belongs to extension X04)
 
 def run(ctx):
     exe, = ctx.build(['c13_paths.san'], timeout=3000)
@@ -15,9 +17,10 @@ def run(ctx):
             return (st['f'], ev['e'], ev.get('x', 0), ev.get('y', 0), ev.get('w', 0), ev.get('h', 0), ev.get('type', ''), ev.get('dev', ''))
         return None
     ctx.scan(traces, k, trim=220)
+    ctx.own = OWN
     ctx.rule = ('test files: written by GIL itself in every variant it can produce (BMP rgb8/rgba8, PNM P5/P6, TARGA rgb8/rgba8, PNG gray8/rgb8/rgba8/rgb16, TIFF rgb8/gray8 strip and '
                 'tiled incl. partial edge tiles, JPEG) at sizes 5x4, 3x2, 1x1, 4x1, 1x3 (+8x6, 7x5, 2x5 thorough), plus corpus files for palette / RLE / 16-bit / OS2 BMP, '
-                'TARGA raw/RLE x origin and ascii/bit PNM. Per file: read_image_info, FILE* and istream reads, EVERY sub-rectangle (small files) or sampled ones, read_view into a '
+                'TARGA raw/RLE x origin and ascii/bit PNM, plus files produced by independent encoders (this driver / libpng): 24/32 bpp BMP bottom-up and TOP-DOWN, raw TARGA 24/32 bpp with either screen origin (with the scanline reader), plain and INTERLACED PNG gray8/rgb8/rgba8/rgb16. Per file: read_image_info, FILE* and istream reads, EVERY sub-rectangle (small files) or sampled ones, read_view into a '
                 'canary image, a too-small destination, read_and_convert_image to gray8/rgba8/rgb16 against color_convert of the native read, the scanline reader, any_image. '
                 'Non-trivial = every read event; distinct = distinct (file, path kind, rectangle / type / device).')
     ctx.exhaustive = False
@@ -30,3 +33,4 @@ def vlib_repo():
 
 def replay(ctx, path):
     ctx.validate('Trace_IoPaths', [path])
+    ctx.own = OWN
